@@ -25,6 +25,11 @@ var c15Decoys = []core.Tree{
 		"crs/tests/regression/tests/REQUEST-123-TEST/12345.yaml": testYaml, "crs/tests/regression/654321.yaml.orig": testYaml, "crs/tests/654321.yaml": testYaml},
 	{"other/regex-assembly/999999.ra": " z\n", "other/rules/REQUEST-999-O.conf": setupExample, "other/tests/regression/tests/T/999999.yaml": testYaml, "other/crs-setup.conf.example": setupExample},
 	{"outer.conf": setupExample, "outer.ra": " q\n", "654321.yaml": testYaml, "x.example": setupExample},
+	// names a careless "write to a temporary file, then rename" would use, next to every kind of target
+	{"crs/crs-setup.conf.example.tmp": "precious\n", "crs/rules/REQUEST-123-TEST.conf.tmp": "precious\n", "crs/rules/REQUEST-123-TEST.conf.new": "precious\n", "crs/rules/REQUEST-123-TEST.conf~": "precious\n",
+		"crs/regex-assembly/123456.ra.tmp": "precious\n", "crs/regex-assembly/.123456.ra.swp": "precious\n", "crs/tests/regression/tests/REQUEST-123-TEST/123456.yaml.tmp": "precious\n", "crs/tests/regression/tests/REQUEST-123-TEST/123456.yaml.new": "precious\n"},
+	// a second file that the rules-file glob finds, sorting before the real one and holding the addressed rules
+	{"crs/rules/AAA-123-DISABLED.conf.off": rulesFile(ruleSpec{ID: "123456", Regex: "DECOY"}, ruleSpec{ID: "123457", Regex: "DECOY2", Chain: []string{"DECOYCHAIN"}})},
 	{"crs/regex-assembly/.gitkeep": "", "crs/regex-assembly/include/.gitkeep": "", "crs/rules/.gitkeep": "", "crs/tests/regression/tests/.gitkeep": "", "crs/tests/regression/tests/REQUEST-123-TEST/.gitkeep": "", "crs/.editorconfig": "root = true\n"},
 }
 
@@ -148,13 +153,14 @@ func C15(r *core.Run) {
 	}
 	var masks []int
 	if r.Thorough() {
-		for m := 0; m < 256; m++ {
+		for m := 0; m < 1<<len(c15Decoys); m++ {
 			masks = append(masks, m)
 		}
 	} else {
-		masks = []int{0, 255}
+		full := 1<<len(c15Decoys) - 1
+		masks = []int{0, full}
 		for i := range c15Decoys {
-			masks = append(masks, 1<<i, 255&^(1<<i))
+			masks = append(masks, 1<<i, full&^(1<<i))
 		}
 	}
 	type in struct {
